@@ -830,7 +830,8 @@ func (m *aMonitor) afterOp(op aOp) {
 			for i, h := range k.holders {
 				sh := s.Holders[i]
 				if sh.Id != h.id || int(sh.Depth) != h.depth {
-					m.viol("C17,C02", "key %s holder %d: server has LockId %x depth %d, reply history says %x depth %d", id, i, sh.Id[:3], sh.Depth, h.id[:3], h.depth)
+					// (the order matters to C01 too: admission is bounded by the Count of the OLDEST outstanding holder)
+					m.viol("C17,C02,C01", "key %s holder %d: server has LockId %x depth %d, reply history says %x depth %d", id, i, sh.Id[:3], sh.Depth, h.id[:3], h.depth)
 				}
 			}
 		}
